@@ -34,7 +34,12 @@ def judge(ctx, r):
         if s["op"][0] == "add" and nb is not None and len(s["after"]) - len(s["before"]) != nb:
             ctx.fail(f"{r.desc} step {i}: add grew the file by {len(s['after']) - len(s['before'])}, block size {nb}", rep, ident="add delta")
             return
-        if s["op"][0] in ("remove", "remove_obj"):
+        if s["op"][0] == "remove" and s["op"][1] == 0:
+            # "removing" an unused slot (the library accepts type 0): no block goes, the file keeps its length
+            if set(sizes_b) != set(sizes_a) or len(s["before"]) != len(s["after"]):
+                ctx.fail(f"{r.desc} step {i}: removing an unused slot changed the blocks or the length of the file", rep, ident="remove of an unused slot")
+                return
+        elif s["op"][0] in ("remove", "remove_obj"):
             gone = set(sizes_b) - set(sizes_a)
             if len(gone) != 1 or len(s["before"]) - len(s["after"]) != sizes_b[next(iter(gone))]:
                 ctx.fail(f"{r.desc} step {i}: remove did not shrink the file by exactly the removed block's size", rep, ident="remove delta")
